@@ -200,15 +200,16 @@ func (m *SessionManager) CreateSession(clientMAC, serverMAC net.HardwareAddr) (*
 	m.mu.Lock()
 	defer m.mu.Unlock()
 
-	// Find next available session ID
+	// Find next available session ID. 0 is never a valid PPPoE session ID
+	// (RFC 2516 reserves it for discovery), also right after the counter wrapped.
 	for {
+		if m.nextID == 0 {
+			m.nextID = 1 // Skip 0
+		}
 		if _, exists := m.sessions[m.nextID]; !exists {
 			break
 		}
 		m.nextID++
-		if m.nextID == 0 {
-			m.nextID = 1 // Skip 0
-		}
 	}
 
 	session, err := NewSession(m.nextID, clientMAC, serverMAC)
